@@ -136,6 +136,15 @@ CLAIMED = {
         "Trusted: the ABI-json derivation in vverif/contracts/abi_outputs.py, bytecode denotation, z3. One genuine defect found and repaired (F14: interface output listed __default__).",
         "DESIGN.md 3/C19",
     ),
+    "C18": (
+        "other",
+        "contract-based verification by exhaustive evaluation (FinEx) of the integrity-sum contract on a module-graph family; bounded stand-ins (fresh processes with different hash seeds / histories / output orders, archive round trips) for the clauses no function-level contract expresses",
+        "Narrow claim. Decided: the reported integrity sum equals H(H(source) ++ sums of the imports in source order) (json inputs: H(content); with a layout override: H(H(override) ++ sum)) on five module graphs incl. a diamond and two same-text modules "
+        "whose imports differ, and it changes with every single-file change and with the override. Bounded only (reported under `bounded`, not proved): byte-identical bytecode/ABI/layout/method ids across 6 fresh processes with different PYTHONHASHSEED, "
+        "compile histories and output orders for 8 programs x 3 configurations; archive bundles recompiled through the CLI reproduce bytecode and integrity sum. Not decided: determinism for all programs and histories; solc_json bundles; metadata output.",
+        "Trusted: hashlib, CPython. The cross-process clauses are not contract-expressible; they are a bounded stand-in by design (DESIGN.md 3/C18).",
+        "DESIGN.md 3/C18",
+    ),
     "C07": (
         "proof",
         "contract-based deductive verification, template route: the real compiler's run-time bytecode for each contract shape and configuration is denoted for all calldata/values and the dispatch contract is discharged by z3; jump-table kernels by bounded run-time contract evaluation",
